@@ -152,8 +152,10 @@ def observe(c):
                         else:
                             err = float(np.max(np.abs(g.astype(np.complex128) - e)))
                             if err > rtol * max(1.0, float(np.linalg.norm(np.atleast_2d(Vm if what == '@V' else v)))):
+                                # blowup: an error many orders of magnitude above the result itself (inverse of a
+                                # numerically singular eigenvector matrix) as opposed to a plainly wrong value
                                 V("value", f"{fname}(A, {aname}) {what}: max abs error {err:.3g} (tolerance {rtol:.2g})",
-                                  operand=what, **extra)
+                                  operand=what, blowup=bool(err > 1e8 * max(1.0, float(np.max(np.abs(e))))), **extra)
                                 break
                 # f(A) @ 0 = 0
                 try:
@@ -173,8 +175,10 @@ def observe(c):
                         e = Dn @ v.astype(np.complex128)
                         if not np.all(np.isfinite(g)) or np.max(np.abs(g - e)) > (2e-2 if single else 1e-5) * max(
                                 1.0, float(np.max(np.abs(e)))) * pc:
+                            big = (not np.all(np.isfinite(g))) or np.max(np.abs(g - e)) > 1e8 * max(
+                                1.0, float(np.max(np.abs(e))))
                             V("sqrt_twice", f"sqrt(A, {aname}) applied twice differs from A v by "
-                              f"{np.max(np.abs(g - e)):.3g}", alg=aname, fn="sqrt")
+                              f"{np.max(np.abs(g - e)):.3g}", alg=aname, fn="sqrt", blowup=bool(big))
                     except Exception:  # noqa: BLE001   (already reported above)
                         pass
     return out
